@@ -91,7 +91,7 @@ func wholePackageSrc(c *Ctx, r *Report, simpleUnions bool) (string, bool) {
 		exp("unionTypeSimple", u)
 		exp("unionHelperSimple", u)
 	} else {
-		u := map[string]any{"Name": unionT, "LeafPath": "/device/u", "ParentReceiver": "Device", "Types": map[string]string{"String": "string", "Uint32": "uint32"}, "TypeNames": []string{"string", "uint32"}}
+		u := map[string]any{"Name": unionT, "LeafPath": "/device/u", "ParentReceiver": "Device", "Types": map[string]string{"String": "string", "Uint32": "uint32", "Binary": "Binary"}, "TypeNames": []string{"Binary", "string", "uint32"}}
 		exp("unionType", u)
 		exp("unionHelper", u)
 	}
